@@ -1591,6 +1591,28 @@ pub fn plan(property: &str, tier: Tier) -> Option<Plan>
                     items.push(item(c, &format!("two-comps-{order}"), &format!("D={d}")));
                 }
             }
+            // three watched entities, one ref-counted reactor whose only triggers are their despawns and one persistent
+            // reactor: several despawns detected by one poll while the reactor is executing (each postponed reaction
+            // must keep its reactor alive until it has been replayed)
+            let ns: &[u32] = if q { &[5] } else { &[5, 6] };
+            for &n in ns
+            {
+                let mut c = Config::base(&format!("C08/despawn-many/N{n}"));
+                c.actors = vec![Variant::Plain, Variant::Plain];
+                c.n_ents = 3;
+                c.setup = vec![
+                    Op::RegisterNew(Variant::Plain, Bundle::three(Trig::Despawn(0), Trig::Despawn(1), Trig::Despawn(2)), Mode::Cleanup),
+                    Op::Register(1, Bundle::three(Trig::Despawn(0), Trig::Despawn(1), Trig::Despawn(2)), Mode::Persistent),
+                ];
+                c.top = Arc::new(|_i: &DynInfo| vec![Op::Despawn(0), Op::Despawn(1), Op::Poll, Op::Run(2)]);
+                c.max_top = 2;
+                c.script = Arc::new(|_i: &DynInfo| vec![Op::Despawn(0), Op::Despawn(1), Op::Despawn(2), Op::Run(0), Op::Run(2)]);
+                c.budget = n;
+                c.max_per_run = 3;
+                c.max_runs = 200;
+                c.final_gc = true;
+                items.push(item(c, "despawn-many", &format!("N={n}")));
+            }
             reports = vec!["C08"];
             rule = "histories of insert / remove / re-insert / despawn / recursive despawn of a parent (entity 1 is a child \
                 of entity 0) at top level and from inside reactor runs, with type-wide and entity-scoped removal \
